@@ -11,5 +11,5 @@ CONSTANTS
   Spurious = FALSE
   Interrupts = FALSE
   Bug = "eintr"
-INVARIANTS ViewIsFunctionOfMoved StreamExact ReadWriteComplete RecvSendBounds NoHangPastTimeout WaitsOnlyForData
+INVARIANTS ReadWriteComplete RecvSendBounds
 CHECK_DEADLOCK FALSE
